@@ -2,6 +2,7 @@ CONSTANTS
   Publishers = {"A", "B", "C"}
   Readers = {}
   RemoteReaders = {}
+  LockFreeReaders = {}
   Keys <- KeysSeq
   HasCache = TRUE
   MaxFaults = 0
